@@ -404,6 +404,28 @@ def run(ctx):
                         ctx.violation('ellipsis-directive', {
                             'what': 'doctest with directive %r: passed=%r, by construction %r' % (d, passed, exp), 'doctest': '\n'.join(lines),
                             'got': out, 'want': want, 'expected_pass': exp, 'theorem_or_correspondence': 'C06 on DocTest.run with the flag set by a directive'}, True)
+    # the want of an expected exception: '...' is the same wildcard in its final line, in the message as in the type name, whichever
+    # other leniency is switched on next to it
+    for extra in ('', ', +IGNORE_EXCEPTION_DETAIL', ', +NORMALIZE_WHITESPACE', ', +NORMALIZE_REPR'):
+        for sign in ('+', '-'):
+            for code, final, wild in (("raise ValueError('x1')", 'Val...Error: x1', 'type'), ("raise ValueError('alpha beta')", 'ValueError: alpha ...', 'msg'),
+                                      ("raise LookupError('a...b')", 'LookupError: a...b', None), ("import json.decoder as jd; jd.JSONDecoder().decode('')", 'json...Error: Expecting ...', 'type'),
+                                      ("raise KeyError('k')", 'Ke...or: ...', 'type')):
+                d = '# xdoctest: %sELLIPSIS%s' % (sign, extra)
+                lines = ['>>> ' + d, '>>> ' + code, 'Traceback (most recent call last):', final]
+                ex = doctest_example.DocTest(docsrc='\n'.join(lines), lineno=1)
+                with contextlib.redirect_stdout(io.StringIO()):
+                    try:
+                        passed = bool(ex.run(verbose=0, on_error='return')['passed'])
+                    except BaseException as e:      # noqa
+                        passed = 'raised %s' % type(e).__name__
+                ne2e += 1
+                # None: identical text; 'msg': the type is written out, so IGNORE_EXCEPTION_DETAIL alone accepts it as well
+                exp = True if wild is None else (sign == '+' or (wild == 'msg' and 'EXCEPTION_DETAIL' in extra))
+                if passed != exp:
+                    ctx.violation('ellipsis-directive', {
+                        'what': 'expected-exception doctest with directive %r: passed=%r, by construction %r' % (d, passed, exp), 'doctest': '\n'.join(lines),
+                        'got': code, 'want': final, 'expected_pass': exp, 'theorem_or_correspondence': 'C06 on DocTest.run, want of an expected exception'}, True)
     # the flag a doctest sees is its own: a run hands one options dict to every doctest, and a block directive of an earlier
     # doctest must not decide whether '...' is a wildcard in a later one
     for dflt in ({'ELLIPSIS': True}, {'ELLIPSIS': False}, {'NORMALIZE_WHITESPACE': False}):
